@@ -182,10 +182,60 @@ class _Normalise(ast.NodeTransformer):
     visit_If = visit_While = visit_For = visit_With = visit_Try = _strip_empty
 
 
+def _alpha(tree):
+    """Rename the function's local variables (parameters other than self, assigned names, loop /
+    comprehension / handler targets) to _v0, _v1, ... in order of first occurrence, so that a
+    renamed local does not count as a change of shape."""
+    local = set()
+    fn = tree
+    for a in fn.args.args + fn.args.kwonlyargs + fn.args.posonlyargs:
+        if a.arg != "self":
+            local.add(a.arg)
+    for x in (fn.args.vararg, fn.args.kwarg):
+        if x is not None:
+            local.add(x.arg)
+    for n in ast.walk(fn):
+        if isinstance(n, ast.Name) and isinstance(n.ctx, (ast.Store, ast.Del)):
+            local.add(n.id)
+        elif isinstance(n, ast.ExceptHandler) and n.name:
+            local.add(n.name)
+    order = {}
+
+    def name(x):
+        if x not in order:
+            order[x] = "_v%d" % len(order)
+        return order[x]
+
+    class R(ast.NodeTransformer):
+        def visit_arg(self, node):
+            if node.arg in local:
+                node.arg = name(node.arg)
+            return node
+
+        def visit_Name(self, node):
+            if node.id in local:
+                node.id = name(node.id)
+            return node
+
+        def visit_ExceptHandler(self, node):
+            self.generic_visit(node)
+            if node.name in local:
+                node.name = name(node.name)
+            return node
+
+        def visit_keyword(self, node):
+            self.generic_visit(node)
+            return node
+
+    return R().visit(tree)
+
+
 def skeleton(fn):
     import copy
     n = _Normalise()
     tree = n.visit(copy.deepcopy(fn))
+    if isinstance(tree, (ast.FunctionDef, ast.AsyncFunctionDef)):
+        tree = _alpha(tree)
     ast.fix_missing_locations(tree)
     text = ast.unparse(tree)
     return text, n.consts
